@@ -60,6 +60,7 @@ var cycle = []combo{
 	{"autodestroy", ""}, {"autodestroy", ""}, {"autodestroy", ""}, {"autodestroy", ""}, {"autodestroy", "beforeDestroy"}, {"autodestroy", "beforeDestroy"}, {"autodestroy", "afterDrain"}, {"autodestroy", "parked"}, {"autodestroy", "parked"},
 	{"destroy", ""}, {"destroy", ""}, {"destroy", "afterDrain"},
 	{"stop", ""}, {"stop", ""}, {"stop", "parked"},
+	{"stopflush", "beforeClose"},
 }
 
 func genCase(r *rand.Rand, idx int) caseSpec {
@@ -152,6 +153,19 @@ func genCase(r *rand.Rand, idx int) caseSpec {
 		for i, n := 0, 1+r.IntN(2); i < n; i++ {
 			cs.Post = append(cs.Post, randWriter(4))
 		}
+	case "stopflush":
+		// thousands of acknowledged records that only the eviction's own flush will write
+		cs.IdleSec = int64(1 + r.IntN(2))
+		cs.WriteSec = 30
+		for i, n := 0, 2+r.IntN(2); i < n; i++ {
+			cs.Pre = append(cs.Pre, opSpec{Id: next(), Kind: "bulk", N: 500 + 150*r.IntN(3)})
+		}
+		if r.IntN(2) == 0 {
+			cs.GapMs = []int{300, 1000}[r.IntN(2)]
+			cs.Touch = []opSpec{randWriter(2)}
+		}
+		cs.Trigger = &opSpec{Id: next(), Kind: "stop"}
+		cs.Reopen = "restart"
 	case "stop":
 		for i, n := 0, 1+r.IntN(3); i < n; i++ {
 			cs.Pre = append(cs.Pre, randWriter(3))
@@ -256,6 +270,44 @@ type witness struct {
 	Sentinel []string          `json:"sentinel,omitempty"`
 }
 
+// slimHist / slimObs keep the witness of a bulk case readable.
+func slimHist(hs []histEntry) []histEntry {
+	out := make([]histEntry, len(hs))
+	for i, h := range hs {
+		out[i] = h
+		if len(h.Keys) > 20 {
+			cnt := map[string]int{}
+			for _, v := range h.Keys {
+				cnt[v]++
+			}
+			out[i].Keys = map[string]string{}
+			for v, n := range cnt {
+				out[i].Keys[fmt.Sprintf("<%d keys>", n)] = v
+			}
+		}
+	}
+	return out
+}
+
+func slimObs(o map[string]string) map[string]string {
+	if len(o) <= 40 {
+		return o
+	}
+	out, absent, present := map[string]string{}, 0, 0
+	for k, v := range o {
+		if k[0] != 'b' {
+			out[k] = v
+		} else if strings.HasPrefix(v, "<absent") {
+			absent++
+		} else {
+			present++
+		}
+	}
+	out["<bulk keys present>"] = fmt.Sprint(present)
+	out["<bulk keys absent>"] = fmt.Sprint(absent)
+	return out
+}
+
 // account books one executed case into the accumulator.
 func account(c *rig.Check, cs caseSpec, cr caseResult) {
 	c.Case(rig.Dump(cs), cr.Nontrivial)
@@ -308,6 +360,9 @@ func account(c *rig.Check, cs caseSpec, cr caseResult) {
 			}
 		}
 	}
+	if cs.Scen == "stopflush" && cr.StopInFlush {
+		c.Count("stops_issued_inside_a_running_eviction_flush", 1)
+	}
 	if cr.RaceAbort {
 		c.Count("cases_in_which_the_race_detector_fired", 1)
 	}
@@ -338,7 +393,14 @@ func account(c *rig.Check, cs caseSpec, cr caseResult) {
 		if os.Getenv("C16_DEBUG") != "" {
 			fmt.Printf("SIG %s\t%s\t%s\n", sig, cs.Name, fs[0].What)
 		}
-		c.Violate(sig, fs[0].What+" [case "+cs.Name+"]", witness{Case: cs, Findings: fs, History: cr.Hist, Observed: cr.Obs, Notes: cr.Notes, Hooks: cr.HookHits, Sentinel: cr.Sentinel})
+		what := fs[0].What
+		if len(fs) > 1 {
+			what += fmt.Sprintf(" (and %d more keys)", len(fs)-1)
+		}
+		if len(fs) > 5 {
+			fs = fs[:5]
+		}
+		c.Violate(sig, what+" [case "+cs.Name+"]", witness{Case: cs, Findings: fs, History: slimHist(cr.Hist), Observed: slimObs(cr.Obs), Notes: cr.Notes, Hooks: cr.HookHits, Sentinel: cr.Sentinel})
 	}
 }
 
@@ -355,6 +417,9 @@ func runAndAccount(t *testing.T, c *rig.Check, cs caseSpec) {
 		}
 	}
 	acked := cr.AckedRacers > 0
+	if cs.Scen == "stopflush" {
+		acked = cr.StopInFlush // the stop really fell into the running eviction flush
+	}
 	cr.Nontrivial = cr.Inconclusive == "" && acked
 	account(c, cs, cr)
 }
@@ -362,13 +427,13 @@ func runAndAccount(t *testing.T, c *rig.Check, cs caseSpec) {
 func TestCheck(t *testing.T) {
 	c := rig.NewCheck(t, "C16", "exploration")
 	defer c.Finish()
-	c.Rule = "a case = one schedule in a synctest bubble on a persistent swamp (closeAfterIdle 1-3 s, write interval 1 s or immediate): setup writes, then writers with unique values (Set / IncrementInt64 / Uint32SlicePush / PatchTreasures) started at the same virtual instant as the evicting close-listener tick (also one tick earlier/later), a last-record Delete/ShiftByKeys/ShiftExpired (auto-destroy), an explicit Destroy, or the graceful stop — natural (truly parallel goroutines) or forced (started from a verifhook handler that then sleeps 1 ms virtual: closeListener.afterRead/beforeClose, autodestroy.beforeDestroy, destroy.afterDrain, and 'parked' = first racer held at hydra.summon.beforeRelease between summon and BeginVigil while the close/destroy/stop runs); plus sequential Delete/write sequences on one key inside one write interval (marker family); then eviction or engine restart on the same root and a Get of every key; oracle = per-key conservation over acknowledged effects with a logical clock; non-trivial = at least one racing (or sequence) request was acknowledged and the re-open was confirmed; distinct = distinct case JSON"
+	c.Rule = "a case = one schedule in a synctest bubble on a persistent swamp (closeAfterIdle 1-3 s, write interval 1 s or immediate): setup writes, then writers with unique values (Set / IncrementInt64 / Uint32SlicePush / PatchTreasures) started at the same virtual instant as the evicting close-listener tick (also one tick earlier/later), a last-record Delete/ShiftByKeys/ShiftExpired (auto-destroy), an explicit Destroy, or the graceful stop (zeus.StopHydra called directly; the data root is copied at the very moment it returns and that copy is what is re-opened; 'stopflush' = 1000-2400 acknowledged records that no write tick has flushed (write interval 30 s > idle), the stop issued from closeListener.beforeClose as soon as the eviction's own flush has produced the storage file, so that Close() called by the shutdown finds the swamp already closing) — natural (truly parallel goroutines) or forced (started from a verifhook handler that then sleeps 1 ms virtual: closeListener.afterRead/beforeClose, autodestroy.beforeDestroy, destroy.afterDrain, and 'parked' = first racer held at hydra.summon.beforeRelease between summon and BeginVigil while the close/destroy/stop runs); plus sequential Delete/write sequences on one key inside one write interval (marker family); then eviction or engine restart on the same root and a Get of every key; oracle = per-key conservation over acknowledged effects with a logical clock; non-trivial = at least one racing (or sequence) request was acknowledged and the re-open was confirmed (stopflush: the stop was issued while the eviction flush was running); distinct = distinct case JSON"
 	c.Assumptions = []string{
 		"acknowledged = Set status NEW/UPDATED, Increment IsIncremented, PatchResult PATCHED/CREATED, Uint32SlicePush nil error, Delete status DELETED, a record returned by ShiftByKeys/ShiftExpiredTreasures, Destroy nil error; any gRPC error, INTERNAL_ERROR or missing reply = not acknowledged (the request may or may not have taken effect, both accepted)",
 		"requests that overlap on the logical clock may take effect in either order; an explicit Destroy counts as an acknowledged removal of every key, so writes that precede or overlap it may be gone; the automatic destroy after a last-record removal is not a client operation",
 		"a key whose last acknowledged operation is a removal must be absent after the reload (a removal that re-appears is reported with the clause 'resurrected', a lost write with 'lost-ack')",
 		"accumulator keys (Increment / Uint32SlicePush / PatchTreasures) are judged as sets of unique contributions; orderings among contributions that all overlap the same removal are not checked, and old contributions that survive a removal are not reported when a write on the same key overlapped that removal (the read-modify-write may have carried them; a live write/removal interleaving is C09/C11's question) — weaker reading",
-		"graceful stop = zeus.StopHydra as driven by rig.Stop (zeus' panic-signal path) while handlers are in flight; server.Stop() first drains gRPC (up to 60 s) before StopHydra, so the 'stop' scenario corresponds to that drain timing out or to the panic-signal path; requests refused with 'hydra is shutting down' are not acknowledged",
+		"graceful stop = zeus.StopHydra called directly (the step server.Stop and zeus' panic monitor both end with), possibly while handlers are in flight; the process is assumed to exit when it returns, so the observation is a copy of the data root taken at that moment; in the stopflush scenario (no request in flight) hydra must hold no swamp and every created swamp must have reported closed by then; server.Stop() first drains gRPC (up to 60 s) before StopHydra, so the 'stop' scenario corresponds to that drain timing out or to the panic-signal path; requests refused with 'hydra is shutting down' are not acknowledged",
 		"V2 storage engine, one swamp, one island; subscribers, in-memory swamps and the V1 engine are not driven",
 		"a request that has not returned 100 virtual seconds after the race makes the case inconclusive here (bounded progress is C17's clause)",
 	}
